@@ -1,19 +1,16 @@
-"""Per-property registration data; tools/mkmanifest.py turns it into MANIFEST.json."""
+"""Per-property registration data lives in harness/props/cNN.reg.json:
+   {"category": <level>, "text": ..., "note": ..., "technique": ..., "design_ref": ..., "engine": ...}
+tools/mkmanifest.py turns them into MANIFEST.json; properties without a file are listed under not_applicable."""
+import glob
+import json
+import os
 
-# id -> dict(category, text, note, technique, design_ref, engine)
-CHECKS = {
-    'C25': dict(
-        category='translation_validation',
-        text='The SQL ASTs the real translator and builders emit for s[i], s[i:j] are evaluated by TLC (SqlSem.tla) for every '
-             'string length and bound value in the bounded domain, under each dialect\'s substr semantics, and compared with '
-             'Python slicing defined in TLA+ (PySlice); the same queries are executed on a real SQLite database and compared '
-             'with the table TLC exported. Exhaustive over the bounded domain; every dialect branch of the slice arithmetic is reached.',
-        note='substr semantics of PostgreSQL/MySQL/Oracle are taken from their documentation (no servers in the sandbox); '
-             'SQLite substr model and PySlice are validated against the real engine and CPython on every run.',
-        technique='TLA+ semantics (SqlSem/PySlice) evaluated by TLC over real translator output (translation validation) + TLC-exported case table executed on SQLite',
-        design_ref='DESIGN.md section 4, C25', engine='tlc-eval'),
-}
+_here = os.path.dirname(os.path.abspath(__file__))
+ALL_IDS = ['C%02d' % i for i in range(1, 37)]
+CHECKS = {}
+for _p in sorted(glob.glob(os.path.join(_here, 'props', 'c*.reg.json'))):
+    with open(_p) as _f:
+        CHECKS[os.path.basename(_p)[:3].upper()] = json.load(_f)
 
 NOT_YET = 'check not built yet in this round; planned per DESIGN.md section 4'
-
-ALL_IDS = ['C%02d' % i for i in range(1, 37)]
+NOT_APPLICABLE = {}
